@@ -18,8 +18,10 @@ Definition padded_view {A} (zero : A) (pre : list A -> list A) (raw : list A) (b
   | None => None
   end.
 
-(* ---- correspondence: rows are their own indices 0..N-1 ---- *)
-Record C03_case := mkC03 { c_n : nat; c_bs : Z; c_nb : Z }.
+(* ---- correspondence: rows are identified by their ids ---- *)
+(* the dataset's rows are start + step*k, k < n  (0, 1: a dataset built directly; other
+   values: a dataset obtained by slicing a parent, d[a:b:c], whose rows carry the parent's ids) *)
+Record C03_case := mkC03 { c_n : nat; c_bs : Z; c_nb : Z; c_start : Z; c_step : Z }.
 Record C03_obs := mkO03 {
   o_plain : list (list Z);              (* batch(drop_remainder=False): row indices per batch *)
   o_drop : list (list Z);               (* batch(drop_remainder=True) *)
@@ -32,7 +34,7 @@ Definition llz_eqb := list_beq lz_eqb.
 Definition pb_eqb (a b : list Z * list bool) := lz_eqb (fst a) (fst b) && list_beq Bool.eqb (snd a) (snd b).
 
 Definition C03_agree (c : C03_case) (o : C03_obs) : bool :=
-  let raw := idx (c_n c) in
+  let raw := map (fun k => c_start c + c_step c * k) (idx (c_n c)) in
   llz_eqb (batch_view (fun x => x) raw (c_bs c) false) (o_plain o) &&
   llz_eqb (batch_view (fun x => x) raw (c_bs c) true) (o_drop o) &&
   match padded_view 0 (fun x => x) raw (c_bs c) (c_nb c) with
